@@ -92,6 +92,31 @@ SEEDS = [
  ("C20-or-no-rewind", "C20", "OrParser::parse no longer restores the input position before trying the next alternative",
   "a non-last alternative that fails softly AFTER consuming input (and_then with a soft-failing mapper, flatten, or a hand-written parser)",
   "run_demo.sh (demo_c20_choice.rs integration test)"),
+ # ---- round 3: changes that only manifest beyond small sizes
+ ("C04-dimension-size-through-u16", "C04", "VArray::abs_index rewritten over usize with `(ubound - lbound + 1) as u16`: a dimension of 65536 elements gets size 0",
+  "a 2- or 3-dimensional array whose non-first dimension is declared exactly -32768 TO 32767",
+  "run_demo.sh (demo.bas vs expected.txt)"),
+ ("C10-max-long-literal-double", "C10", "process_dec: `u <= MAX_LONG as u32` became `<`: the literal 2147483647 is typed DOUBLE",
+  "exactly the ten-digit decimal literal 2147483647 used in typed arithmetic: PRINT 2147483647 + 1",
+  "run_demo.sh (demo.bas vs demo.expected)"),
+ ("C11-position-fields-u16", "C11", "Position stores row and col as u16 (`row as u16`): rows / columns above 65535 wrap",
+  "a diagnostic or call site beyond row 65535 (or column 65535 of one long line)",
+  "run_demo.sh (gen_demo.py generates 70000-line programs)"),
+ ("C13-defsng-z-skipped", "C13", "TypeResolverImpl tracks overridden letters in a 25-bit mask (A..Y): a DEFSNG range is skipped when none of its letters is recorded as overridden",
+  "an earlier non-SINGLE DEFtype covering Z and a later DEFSNG whose only overridden letter is Z: DEFINT A-Z: DEFSNG Z",
+  "run_demo.sh (demo.bas, control1.bas, control2.bas)"),
+ ("C16-column-wraps-at-80", "C16", "WritePrinter::print_as_is: last_column = (last_column + len) % 80",
+  "at least 80 characters on the current line of a device, followed by a comma",
+  "run_demo.sh (demo.bas vs expected.txt)"),
+ ("C17-mid-rest-clamped-255", "C17", "do_mid: an omitted length defaults to 255 and is clamped like an explicit one",
+  "two-argument MID$ with more than 255 characters after the start position",
+  "run_demo.sh (demo.bas vs expected.txt)"),
+ ("C19-normalize-by-log2", "C19", "f64_abs_normalize_value computes the exponent as ceil(-log2(x)) instead of doubling in a loop",
+  "a double below 0.25 within a few ulps below a power of two (all-ones mantissa): 0.25 - 2^-55",
+  "run_demo.sh (demo.bas vs demo.expected)"),
+ ("C20-one-of-binary-search", "C20", "one_of_p uses needles.binary_search(x) when there are more than 4 needles (nothing sorts them)",
+  "one_of_p with 5 or more needles listed unsorted and an input element the binary search misses",
+  "run_demo.sh (seed_c20_d_demo.rs integration test)"),
 ]
 
 RESULTS_FILE = os.path.join(HERE, "seeded", "results.json")
